@@ -159,3 +159,25 @@ def isnan(x):
     if is_sym(x):
         return False
     return _m.isnan(x)
+
+
+def pow(x, k):
+    return core.sym_pow(x, k) if is_sym(x) else _m.pow(x, k)
+
+
+def isfinite(x):
+    if is_sym(x):
+        return True
+    return _m.isfinite(x)
+
+
+def isinf(x):
+    if is_sym(x):
+        return False
+    return _m.isinf(x)
+
+
+def ceil(x):
+    if not is_sym(x):
+        return _m.ceil(x)
+    return wrap(-z3.ToInt(-to_real(x)))
